@@ -196,6 +196,55 @@ def _convert_returns(stmts, make):
     return out
 
 
+def _loop_return_rewrite(body, make, falls_value):
+    """Body with returns inside exactly one top-level `for` (no nested loop around a return, no break, no else):
+         pre; for ..: .. return v ..; post   ->   pre; for ..: .. <make(v)>; break ..  else: <post with returns made>
+    so that a helper that searches with early returns can stand where its call stood.  None when not applicable."""
+    idx = [i for i, s in enumerate(body) if isinstance(s, (ast.For, ast.While)) and _has_return([s])]
+    if len(idx) != 1 or not isinstance(body[idx[0]], ast.For):
+        return None
+    i = idx[0]
+    loop = body[i]
+    pre, post = body[:i], body[i + 1:]
+    if _has_return(pre) or loop.orelse or not _returns_at_tail(post):
+        return None
+    for n in _walk_own_stmt(loop):
+        if isinstance(n, ast.Break):
+            return None
+        if isinstance(n, (ast.For, ast.While, ast.AsyncFor)) and _has_return([n]):
+            return None
+        if isinstance(n, ast.Try) and n.finalbody and _has_return([n]):
+            return None
+
+    def conv(stmts):
+        out = []
+        for s in stmts:
+            if isinstance(s, ast.Return):
+                out.extend(make(s.value, s))
+                out.append(ast.copy_location(ast.Break(), s))
+                break
+            if isinstance(s, ast.If):
+                s.body = conv(s.body) or [ast.copy_location(ast.Pass(), s)]
+                s.orelse = conv(s.orelse)
+            elif isinstance(s, ast.With):
+                s.body = conv(s.body) or [ast.copy_location(ast.Pass(), s)]
+            elif isinstance(s, ast.Try):
+                s.body = conv(s.body) or [ast.copy_location(ast.Pass(), s)]
+                s.orelse = conv(s.orelse)
+                for h in s.handlers:
+                    h.body = conv(h.body) or [ast.copy_location(ast.Pass(), h)]
+            out.append(s)
+        return out
+
+    loop.body = conv(loop.body)
+    fell = _falls_off(post)
+    tail = _convert_returns(post, make)
+    if fell:
+        tail = tail + list(falls_value())
+    loop.orelse = tail
+    return pre + [loop]
+
+
 def _drop_self_assign(stmts):
     out = []
     for s in stmts:
@@ -632,7 +681,7 @@ class Inliner:
                         return new
                 if n is e and top_call:
                     return n  # statement position: handled by the caller
-                if v.blocked or isinstance(s, ast.While) or h.is_gen or not _returns_at_tail(h.body) or not _hoistable(e, n, self):
+                if v.blocked or isinstance(s, ast.While) or h.is_gen or not (_returns_at_tail(h.body) or _loop_return_rewrite(copy.deepcopy(h.body), lambda v_, at: [], lambda: []) is not None) or not _hoistable(e, n, self):
                     self.left.add(h.qual)
                     return n
                 # hoist: tmp = H(..) before the statement
@@ -671,9 +720,13 @@ class Inliner:
         if not h.ok or (h.is_gen and mode != "yieldfrom") or (mode == "yieldfrom" and not h.is_gen):
             self.left.add(h.qual)
             return None
+        loop_form = False
         if mode in ("expr", "assign", "yieldfrom") and not _returns_at_tail(h.body):
-            self.left.add(h.qual)
-            return None
+            if mode in ("expr", "assign") and not h.is_gen and _loop_return_rewrite(copy.deepcopy(h.body), lambda v, at: [], lambda: []) is not None:
+                loop_form = True
+            else:
+                self.left.add(h.qual)
+                return None
         targets = None
         if mode == "assign":
             targets = s.targets if isinstance(s, ast.Assign) else [s.target]
@@ -692,8 +745,13 @@ class Inliner:
                 val = v if v is not None else ast.Constant(value=None)
                 return [ast.Assign(targets=copy.deepcopy(targets), value=val, lineno=at.lineno, col_offset=at.col_offset)]
 
-            fell = _falls_off(body)
-            body = _convert_returns(body, make)
+            if loop_form:
+                none_assign = lambda: [ast.Assign(targets=copy.deepcopy(targets), value=ast.Constant(value=None), lineno=s.lineno, col_offset=0)]
+                body = _loop_return_rewrite(body, make, none_assign)
+                fell = False
+            else:
+                fell = _falls_off(body)
+                body = _convert_returns(body, make)
             body = _drop_self_assign(body)
             if fell:
                 body.append(ast.Assign(targets=copy.deepcopy(targets), value=ast.Constant(value=None), lineno=s.lineno, col_offset=0))
@@ -704,7 +762,7 @@ class Inliner:
                     return []
                 return [ast.Expr(value=v, lineno=at.lineno, col_offset=at.col_offset)]
 
-            body = _convert_returns(body, make)
+            body = _loop_return_rewrite(body, make, lambda: []) if loop_form else _convert_returns(body, make)
         new = prologue + body
         if not new:
             new = [ast.Pass()]
